@@ -2,6 +2,7 @@ package main
 
 import (
 	"fmt"
+	"sort"
 	"go/token"
 	"go/types"
 	"strings"
@@ -237,19 +238,59 @@ func ruleEventGate(c *Ctx) {
 		return
 	}
 	p.initMayWrite()
+	// functions that call processEvent directly; a helper (all static callers are other repository functions)
+	// is analysed inlined into its callers instead of on its own
+	direct := map[*ssa.Function]bool{}
 	for _, f := range p.Repo {
-		has := false
 		for _, call := range callsIn(f) {
 			if _, ok := isCallTo(call, pe); ok {
-				has = true
+				direct[f] = true
 			}
 		}
-		if !has || f.Parent() != nil && false {
-			continue
+	}
+	helper := map[*ssa.Function]bool{}
+	roots := map[*ssa.Function]bool{}
+	for f := range direct {
+		roots[f] = true
+	}
+	for changed := true; changed; {
+		changed = false
+		for f := range roots {
+			if helper[f] || f.Parent() != nil {
+				continue
+			}
+			n := p.CG.Nodes[f]
+			var callers []*ssa.Function
+			if n != nil {
+				for _, e := range n.In {
+					if e.Site != nil && e.Site.Common().StaticCallee() == f && e.Caller.Func != nil && p.isRepoFn(e.Caller.Func) {
+						callers = append(callers, e.Caller.Func)
+					}
+				}
+			}
+			if len(callers) > 0 && f.Object() != nil && !f.Object().Exported() && fnName(f) != "(*server.Subscription).unqueueEvents" {
+				helper[f] = true
+				for _, cf := range callers {
+					if !roots[cf] {
+						roots[cf] = true
+					}
+				}
+				changed = true
+			}
 		}
+	}
+	var rootList []*ssa.Function
+	for f := range roots {
+		if !helper[f] {
+			rootList = append(rootList, f)
+		}
+	}
+	sort.Slice(rootList, func(i, j int) bool { return fnName(rootList[i]) < fnName(rootList[j]) })
+	for _, f := range rootList {
 		c.inst(1)
 		root := f
 		sp := &Spec{EdgeLimit: 2}
+		sp.Inline = func(t *Tracer, fr *Frame, cl ssa.CallInstruction, fn *ssa.Function) bool { return helper[fn] }
 		sp.Classify = func(t *Tracer, fr *Frame, in ssa.Instruction) []Ev {
 			if _, ok := isCallTo(in, pe); ok {
 				return []Ev{{Kind: "process", Stop: true}}
@@ -263,7 +304,10 @@ func ruleEventGate(c *Ctx) {
 			if _, ok := isCallTo(in, reacc); ok {
 				return []Ev{{Kind: "reaccess", Stop: true}}
 			}
-			if call, ok := in.(ssa.CallInstruction); ok && fr == t.RootFr {
+			if call, ok := in.(ssa.CallInstruction); ok {
+				if sf := call.Common().StaticCallee(); sf != nil && helper[sf] {
+					return nil // inlined: its own instructions speak
+				}
 				for _, w := range p.MayWrite(call) {
 					if w == fQ {
 						return []Ev{{Kind: "write", Note: calleeName(call.Common())}}
